@@ -247,6 +247,12 @@ func RunWorker(o *Options) int {
 	sigs := map[[8]byte]struct{}{}
 	states := map[[8]byte]struct{}{}
 	seenKeys := map[string]bool{}
+	knownKeys := map[string]bool{} // listed findings are re-observed, not re-minimised
+	for _, k := range loadKnown(o) {
+		if k.Status == "known" && k.Property == c.ID {
+			knownKeys[k.Key] = true
+		}
+	}
 	deadline := time.Now().Add(time.Duration(o.DeadlineS) * time.Second)
 	var td bytes.Buffer
 	for i := o.From; i < o.To; i++ {
@@ -303,7 +309,7 @@ func RunWorker(o *Options) int {
 			}
 			seenKeys[v.Key] = true
 			min := plan
-			if !c.NoMinimise {
+			if !c.NoMinimise && !knownKeys[v.Key] {
 				min = minimise(c, plan, v, 150)
 			}
 			path, err := writeReplay(o, c, min, v, len(plan.Steps))
